@@ -115,6 +115,26 @@ def run_case(case, seed):
             bad("C17/duplicate", f"a sample index appears twice in an epoch: {seen}")
         if any(i < 0 or i >= L for i in seen):
             bad("C17/range", "index out of range")
+    # history: batch, grow the data set in place (append along the sample axis), batch again
+    if nmi == 1 and case["key"] in (None, 0) and L >= 2:
+        L0 = L // 2
+        t = TYPES[0]
+        def block(lo, hi, kp, c):
+            shape = (hi - lo, c) + sp + (D,) * kp[0]
+            idx = np.arange(lo, hi, dtype=np.float32).reshape((hi - lo,) + (1,) * (len(shape) - 1))
+            return jnp.asarray(np.broadcast_to(idx, shape).copy())
+        mi = geom.MultiImage({kp: block(0, L0, kp, c) for kp, c in t}, D, (True, False))
+        if L0 >= 1:
+            ml.get_batches(mi, min(B, L0), key, [None])
+        for kp, c in t:
+            mi.append(kp[0], kp[1], block(L0, L, kp, c), axis=0)
+        res = ml.get_batches(mi, B, key, [None])
+        evals += 1
+        seen = []
+        for m in res[0]:
+            seen.extend(np.asarray(m[t[0][0]]).reshape(B, -1)[:, 0].astype(int).tolist())
+        if len(res[0]) != L // B or len(seen) != len(set(seen)) or any(i < 0 or i >= L for i in seen) or (key is None and seen != list(range((L // B) * B))):
+            bad("C17/history/grown-data-set", f"after growing the data set in place from {L0} to {L} samples: {len(res[0])} batches holding {seen}, expected floor({L}/{B}) batches partitioning range({L})")
     return {"violations": v, "nt": (L // B >= 2) or (case["key"] is not None and B >= 2), "evals": evals, "outcome": f"nb={min(L // B, 3)}/key={case['key'] is not None}/nmi={nmi}"}
 
 
